@@ -52,7 +52,7 @@ def run(ctx):
         for name, kind, idx in sm:
             for norm in (True, False):
                 if kind == "month":
-                    combos = [(15, 2015)] if tier == "quick" else [(d, y) for d in (1, 9, 15, 28) for y in (1987, 2015, 2024)]
+                    combos = [(15, 2015), (1, 1987)] if tier == "quick" else [(d, y) for d in (1, 9, 15, 28) for y in (1987, 2015, 2024)]
                     for dday, y in combos:
                         for pad in (("%d" % dday,) if tier == "quick" else ("%d" % dday, "%02d" % dday)):
                             st = {"RELATIVE_BASE": bases[0], "TIMEZONE": "UTC"}
@@ -110,5 +110,5 @@ def run(ctx):
            "locales": len(recs), "rows_failing_unlisted": len(vl), "rows_known": len(kh), "exhaustive": True,
            "model_compared": len(sub) if "model-build" not in ctx["broken"] else 0, "model_rejected": dict(rej), "model_drift": len(drift),
            "model_drift_samples": [{"s": d["case"]["s"], "model": d["model"], "lib": d["lib"]} for d in drift[:5]]}
-    return {"violations": out, "known": ["%d (locale, normalize, name) rows listed in known_findings.json do not resolve (e.g. %s)" % (len(kh), sorted(kh)[:3])] if kh else [],
+    return {"violations": out, "known": ["name %r of locale %s (normalize=%s) does not resolve" % (k[2], k[0], k[1]) for k in sorted(kh)],
             "coverage": cov, "level": "proof"}
